@@ -351,7 +351,16 @@ func writeOption(writer io.Writer, optionName string, optionType reflect.Kind, o
 	fmt.Fprintf(writer, "%s%s =", comment, optionName)
 
 	if optionKey != "" {
-		fmt.Fprintf(writer, " %s:%s", optionKey, optionValue)
+		entry := optionKey + ":" + optionValue
+
+		// A key that cannot be written literally (it starts with a quote or
+		// holds unprintable characters) makes the whole entry a quoted
+		// string; the reader unquotes the entry before splitting it
+		if iniNeedsQuote(optionKey) {
+			entry = strconv.Quote(entry)
+		}
+
+		fmt.Fprintf(writer, " %s", entry)
 	} else if optionValue != "" {
 		fmt.Fprintf(writer, " %s", optionValue)
 	}
